@@ -1,4 +1,5 @@
 # flake8: noqa F405
+import copy
 import logging
 
 from datetime import datetime
@@ -101,6 +102,11 @@ def rule(*patterns: Union[str, Predicate]) -> Callable[[Any], ProductionRule]:
         def wrapper(ts: datetime, *args: Artifact) -> Optional[Artifact]:
             res = f(ts, *args)
             if res is not None:
+                if any(res is a for a in args):
+                    # the rule handed back one of its arguments (e.g. "at <time>");
+                    # that object is shared with other partial parses, so the span
+                    # is updated on a copy
+                    res = copy.copy(res)
                 # upon a successful production, update the span
                 # information by expanding it to that of all args
                 res.update_span(*args)
